@@ -433,9 +433,20 @@ def r5_exit(prog, rep: Report, pf: PoolFacts):
             if isinstance(c, ast.Call) and isinstance(c.func, ast.Attribute) and c.func.attr in ("__exit__", "shutdown") \
                     and is_manager_expr(c.func.value, sn, mgr_fields):
                 mgr_i = i if mgr_i is None else mgr_i
-    rep.check("C04.R5", f, "sentinels", sent_i is not None and sent_ok, "one None per element of self.procs on the work queue",
-              "__exit__ does not put exactly one None per element of self.procs on the work queue",
-              scenario="a pool of 3 workers gets 2 sentinels: one worker blocks in get() forever and join() never returns")
+    from .poolfam import stop_order_delivery
+    kind_, what_ = stop_order_delivery(prog, pf, f)
+    if kind_ == "bounded":
+        # the count-down form: len(self.procs) orders, each put bounded, given up only when every worker has finished
+        sent_i = body.index(what_)
+        sent_ok = True
+    if kind_ == "other" and any(isinstance(st_, ast.While) and any(isinstance(c_, ast.Call) and queue_call(c_) and queue_call(c_)[0] == "put"
+                                                                    for c_ in ast.walk(st_)) for st_ in body):
+        rep.unrec("C04.R5", f, "sentinels", f"the stop orders are put by a loop this rule does not read: {what_}")
+    else:
+      rep.check("C04.R5", f, "sentinels", sent_i is not None and sent_ok, "one None per element of self.procs on the work queue"
+                + (" (count-down with bounded puts, given up only when no worker is left)" if kind_ == "bounded" else ""),
+                "__exit__ does not put exactly one None per element of self.procs on the work queue",
+                scenario="a pool of 3 workers gets 2 sentinels: one worker blocks in get() forever and join() never returns")
     rep.check("C04.R5", f, "joins", join_i is not None and join_ok and (sent_i is None or sent_i < join_i),
               "every element of self.procs is joined (when exitcode is None) after the sentinels were sent",
               "__exit__ does not join every element of self.procs after sending the sentinels",
